@@ -328,10 +328,12 @@ def rndWf (rnd : Nat → Bytes × Bytes) : Prop :=
 
 /-! ## an executable instance for the driver and for non-vacuity
 
-"Bytes" are unbounded naturals here, so an ideal AEAD fits into the 16-element tag:
-the tag's four first elements are injective codes of password, salt, nonce and message. -/
+"Bytes" are unbounded naturals here, so an (almost) ideal AEAD fits into the 16-element tag:
+the tag's four first elements are 61-bit polynomial hashes of password, salt, nonce and
+message.  `idealAead` is length-exact (ciphertext = message ‖ 16 tag elements) and is what the
+driver runs; it is not claimed lawful (hash collisions exist) — `prefixAead` below is. -/
 
-def codeOf (l : Bytes) : Nat := l.foldl (fun acc b => acc * 257 + (b + 1)) 0
+def codeOf (l : Bytes) : Nat := l.foldl (fun acc b => (acc * 257 + (b + 1)) % 2305843009213693951) 0
 
 def idealTag (pw salt nonce m : Bytes) : Bytes :=
   [codeOf pw, codeOf salt, codeOf nonce, codeOf m] ++ List.replicate (tagLength - 4) 0
